@@ -45,7 +45,7 @@ func c06Snapshot(m *test.Command, index string) (string, error) {
 func TestVerifC06Server(t *testing.T) {
 	r := vk.Start(t, "C06")
 	defer r.Finish()
-	r.Expect("entry:import-roaring", "entry:query", "entry:cluster-message", "import:rejected", "import:accepted")
+	r.Expect("entry:import-roaring", "entry:query", "entry:cluster-message", "entry:cluster-message-gossip", "import:rejected", "import:accepted")
 
 	m := test.MustRunCommand()
 	defer m.Close()
@@ -258,6 +258,21 @@ func TestVerifC06Server(t *testing.T) {
 			}
 			sig := "cluster-message:" + mk
 			wit := map[string]interface{}{"sig": sig, "entry": "cluster-message", "hex": hex.EncodeToString(b)}
+			if rng.Bool() {
+				// the gossip delivery path (memberSet.NotifyMsg) hands the bytes to API.ClusterMessage
+				// directly, with no recover around it: a panic here is a process crash in production
+				sig = "cluster-message-gossip:" + mk
+				wit["sig"], wit["entry"] = sig, "cluster-message (gossip path: API.ClusterMessage called directly)"
+				r.InFlightDetail(id, wit)
+				r.Guard(func() string { return "panic:" + sig }, id, func() interface{} { return wit }, func() {
+					_ = m.API.ClusterMessage(ctx, bytes.NewReader(b))
+				})
+				r.Eval(1)
+				r.Cover("entry:cluster-message")
+				r.Cover("entry:cluster-message-gossip")
+				r.Distinct(vk.HashBytes(b), true)
+				return
+			}
 			r.InFlightDetail(id, wit)
 			_, _, err := post("/internal/cluster/message", "application/x-protobuf", b)
 			r.Eval(1)
